@@ -4,6 +4,7 @@ package sim
 import (
 	"encoding/json"
 	"fmt"
+	"strings"
 	"time"
 
 	saoapp "github.com/SaoNetwork/sao/app"
@@ -200,6 +201,22 @@ func BuildGenesis(app *saoapp.App, enc cosmoscmd.EncodingConfig, cfg GenesisCfg,
 	}
 	_ = cryptocodec.FromTmPubKeyInterface
 	return gs
+}
+
+// TryNewChain builds the chain unless the application refuses the genesis parameters (the parameter store validates every
+// value it is given and panics on an invalid one: a chain with such a genesis never starts). Any other panic is passed on.
+func TryNewChain(cfg GenesisCfg) (c *Chain, rejected string) {
+	defer func() {
+		if r := recover(); r != nil {
+			msg := fmt.Sprint(r)
+			if strings.Contains(msg, "ParamSetPair is invalid") {
+				c, rejected = nil, msg
+				return
+			}
+			panic(r)
+		}
+	}()
+	return NewChain(cfg), ""
 }
 
 func NewChain(cfg GenesisCfg) *Chain {
